@@ -25,12 +25,15 @@ PROPERTY = 'C16'
 LEVEL = 'exploration'
 RULE = ('systems of 1-6 molecules built from explicit atom lists (names of 1-7 chars, resids incl. negative / 9999 / 10000 / 123456, '
         'chains of 0-2 chars, insertion codes, coordinates on a 1e-3 grid across and beyond the column range) optionally tiled to '
-        'reach 9990-10010 (and in the thorough tier 99990-100010) atoms, with chain/star/random bond patterns up to degree 9; written '
+        'reach 9990-10010 (and in the thorough tier 99990-100010) atoms, with chain/star/random bond patterns up to degree 9; atom '
+        'numbers absent / increasing / permuted / on some atoms only; written '
         'with write_pdb / write_gro and read back; non-trivial = some field is at or beyond its column width, or there are bonds at '
         'serials >= 10000; distinct by hash of the case description')
 ASSUMPTIONS = [
     'names contain no whitespace and no "."; alternate-location is not set (the reader drops non-A altlocs by design)',
-    'atom ids are absent or increase with node order (disagreement between node order and atom ids is property C03)',
+    'atom ids are absent, increase with node order, are a permutation of it, or are present on some atoms of a molecule only; '
+    'they are distinct within a molecule. "In the same order" is the order the writers share: numbered atoms by atom number, '
+    'then the unnumbered ones in node order; besides, the PDB and the GRO file of one system are compared record by record',
     'no bonds between different molecules (the PDB reader merges such molecules by design)',
     'a truncated field may keep either its leading or its trailing characters; which one is not prescribed by the statement',
     'readers are called with exclude=() so that residue name SOL is not filtered',
@@ -42,7 +45,8 @@ PDB_LINE_LEN = 80
 def expand(case):
     """Build the real molecules + a flat expectation list from the case."""
     mols = []
-    expected = []   # per molecule: list of atom dicts ; edges as set of (i,j) local ordinals
+    expected = []   # per molecule: list of atom dicts IN WRITTEN ORDER; edges as set of (i,j) ordinals in that order
+    info = {}
     for mdesc in case['mols']:
         mol = Molecule()
         atoms = mdesc['atoms']
@@ -68,8 +72,9 @@ def expand(case):
                     attrs['element'] = a['element']
                 if case.get('velocities'):
                     attrs['velocity'] = np.array([c / 10000.0 for c in a.get('vel', [0, 0, 0])], dtype=float)
-                if mdesc.get('atomid0') is not None:
-                    attrs['atomid'] = mdesc['atomid0'] + 2 * len(keys)
+                aid = _atomid(mdesc, len(keys) % n_tile, t, n_tile, len(keys))
+                if aid is not None:
+                    attrs['atomid'] = aid
                 mol.add_node(key, **attrs)
                 keys.append(key)
                 exp_atoms.append(attrs)
@@ -86,8 +91,45 @@ def expand(case):
         for i, j in edges:
             mol.add_edge(keys[i], keys[j])
         mols.append(mol)
+        # The order in which the atoms of a molecule are written: atoms that carry an atom number first, by that number,
+        # the atoms without one after them in node order (the writers state that they share one atom order; C03 demands
+        # that the k-th coordinate record is the k-th atom of the ITP). Atom numbers are distinct by construction, the
+        # sort is stable.
+        order = sorted(range(len(exp_atoms)), key=lambda i: (0, exp_atoms[i]['atomid']) if 'atomid' in exp_atoms[i] else (1, 0))
+        if order != list(range(len(exp_atoms))):
+            rank = {node: written for written, node in enumerate(order)}
+            exp_atoms = [exp_atoms[i] for i in order]
+            edges = set((min(rank[i], rank[j]), max(rank[i], rank[j])) for i, j in edges)
+            info['reordered'] = True
+            if any('atomid' not in a for a in exp_atoms):
+                info['partial-reordered'] = True
+        if any('atomid' in a for a in exp_atoms) and any('atomid' not in a for a in exp_atoms):
+            info['partial'] = True
         expected.append((exp_atoms, edges))
-    return mols, expected
+    return mols, expected, info
+
+
+AID_SPAN = 12     # no tile has more atoms than this
+
+
+def _atomid(mdesc, i, t, n_tile, ordinal):
+    """Atom number of atom i of tile t, or None. Modes: absent; increasing with node order ('atomid0'); 'shuffled' = every
+    atom numbered, numbers a permutation of the node order; 'partial' = only some atoms numbered (a molecule that was read
+    from a file and had atoms added, or a merge of a read and a generated molecule), numbers again permuted."""
+    aid = mdesc.get('aid')
+    if aid is None:
+        if mdesc.get('atomid0') is not None:
+            return mdesc['atomid0'] + 2 * ordinal
+        return None
+    number = aid['first'] + aid['perm'][i] + t * AID_SPAN
+    if aid['mode'] == 'shuffled':
+        return number
+    mask = list(aid['mask'][:n_tile])
+    if n_tile >= 2 and all(mask):
+        mask[0] = False          # construct, do not filter: a partial molecule has both kinds of atom
+    elif n_tile >= 2 and not any(mask):
+        mask[-1] = True
+    return number if mask[i] else None
 
 
 def trunc_ok(text, got, width):
@@ -277,17 +319,74 @@ def check_gro(case, mols, expected, tmpdir):
     return classes
 
 
+CROSS_MAX_ATOMS = 400
+
+
+def check_same_order(case, mols, expected, tmpdir):
+    """The same system written as PDB and as GRO is read back in the same order. Needs no model of the order: record k of
+    one file is compared with record k of the other, on the fields that fit the columns of both formats."""
+    system = System()
+    system.molecules = mols
+    pdb_path = os.path.join(tmpdir, 'cross.pdb')
+    gro_path = os.path.join(tmpdir, 'cross.gro')
+    precision = case.get('precision', 7)
+    write_pdb(system, pdb_path, conect=False, defer_writing=False)
+    write_gro(system, gro_path, precision=precision, defer_writing=False, box=(10, 11, 12))
+    from_pdb = [m.nodes[k] for m in read_pdb(pdb_path, exclude=()) for k in m.nodes]
+    gro = read_gro(gro_path, exclude=())
+    from_gro = [gro.nodes[k] for k in gro.nodes]
+    if len(from_pdb) != len(from_gro):
+        raise Violation('cross-count', 'same system: %d atoms read from PDB, %d from GRO' % (len(from_pdb), len(from_gro)))
+    flat = [a for e in expected for a in e[0]]
+    # A GRO column is at least as wide as the PDB column of the same field. A value read from the GRO file that does not
+    # fill its column was not truncated there; if it fits the PDB column too, record k of the PDB file must show the same
+    # value. Coordinates are compared on the axes on which every atom of the system fits both formats (a property of the
+    # set of atoms, not of their order).
+    axes = [ax for ax in range(3)
+            if all(coord_fits(a['position'][ax] * 10, 8) and coord_fits(a['position'][ax], precision + 1) for a in flat)]
+    compared = bool(axes)
+    for idx, (p, g) in enumerate(zip(from_pdb, from_gro)):
+        names = len(g['atomname']) <= 4
+        resnames = len(g['resname']) <= 3
+        resids = len(str(g['resid'])) <= 4
+        compared = compared or names or resnames or resids
+        if names and p['atomname'] != g['atomname']:
+            raise Violation('cross-order', 'record %d is atom %r in the PDB and atom %r in the GRO file of the same system' % (
+                idx, p['atomname'], g['atomname']))
+        if resnames and p['resname'] != g['resname']:
+            raise Violation('cross-order', 'record %d has residue name %r in the PDB and %r in the GRO file of the same system' % (
+                idx, p['resname'], g['resname']))
+        if resids and p['resid'] != g['resid']:
+            raise Violation('cross-order', 'record %d has residue number %r in the PDB and %r in the GRO file of the same system' % (
+                idx, p['resid'], g['resid']))
+        for ax in axes:
+            if abs(p['position'][ax] - g['position'][ax]) > 1.1e-3:
+                raise Violation('cross-order', 'record %d axis %d is at %r nm in the PDB and at %r nm in the GRO file of the same system' % (
+                    idx, ax, p['position'][ax], g['position'][ax]))
+    return compared
+
+
 def run(case):
-    mols, expected = expand(case)
+    mols, expected, info = expand(case)
     tmpdir = tempfile.mkdtemp(prefix='c16_', dir='/dev/shm' if os.path.isdir('/dev/shm') else None)
     try:
         if case['fmt'] == 'pdb':
             classes = check_pdb(case, mols, expected, tmpdir)
         else:
             classes = check_gro(case, mols, expected, tmpdir)
+        if info.get('reordered') and sum(len(e[0]) for e in expected) <= CROSS_MAX_ATOMS:
+            if check_same_order(case, mols, expected, tmpdir):
+                classes.add('pdb-vs-gro-order')
     finally:
         shutil.rmtree(tmpdir, ignore_errors=True)
     classes.add(case['fmt'])
+    if info.get('partial'):
+        classes.add('atomid-partial')
+    if info.get('reordered'):
+        classes.add('atomid-order!=node-order')
+    if info.get('partial-reordered'):
+        classes.add('atomid-partial-reordered')
+        classes.add(case['fmt'] + '-atomid-partial-reordered')
     if len(mols) > 1:
         classes.add('multi-mol')
     nontrivial = bool(classes & {'overflow-name', 'name-at-width', 'overflow-resname', 'resname-at-width', 'overflow-resid',
@@ -335,6 +434,14 @@ def _atom_strategy(fmt):
     })
 
 
+def _aid_strategy(mode):
+    return st.fixed_dictionaries({
+        'mode': st.just(mode), 'first': st.sampled_from([1, 1, 7, 300]),
+        'perm': st.permutations(list(range(AID_SPAN))),
+        'mask': st.lists(st.booleans(), min_size=AID_SPAN, max_size=AID_SPAN),
+    })
+
+
 def _mol_strategy(fmt, max_atoms, big=None):
     atoms = st.lists(_atom_strategy(fmt), min_size=1, max_size=max_atoms)
     edges = st.one_of(
@@ -346,6 +453,8 @@ def _mol_strategy(fmt, max_atoms, big=None):
         'atoms': atoms, 'edges': edges,
         'key0': st.sampled_from([0, 0, 1, 5, -3]), 'keystep': st.sampled_from([1, 1, 2, 7]),
         'atomid0': st.one_of(st.none(), st.none(), st.sampled_from([1, 10, 500])),
+        # atom numbers that disagree with the node order, on all atoms or on some of them only
+        'aid': st.one_of(st.none(), st.none(), st.none(), _aid_strategy('partial'), _aid_strategy('partial'), _aid_strategy('shuffled')),
     }
     if big is None:
         return st.fixed_dictionaries(base)
@@ -439,7 +548,8 @@ def _run_serial_limit(case):
 PARTS = [
     Part('small', run, strategy=strategy_small, examples={'quick': 1600, 'thorough': 40000},
          floors={'pdb': 0.4, 'gro': 0.2, 'bonds': 0.2, 'degree>4': 0.02, 'overflow-name': 0.1, 'overflow-resid': 0.05,
-                 'overflow-coord': 0.03, 'multi-mol': 0.3}),
+                 'overflow-coord': 0.03, 'multi-mol': 0.3, 'atomid-partial-reordered': 0.2, 'gro-atomid-partial-reordered': 0.05,
+                 'pdb-atomid-partial-reordered': 0.1, 'pdb-vs-gro-order': 0.25}),
     Part('around-10k-atoms', run, strategy=strategy_10k, examples={'quick': 48, 'thorough': 480},
          floors={'bonds-at-serial>=10000': 0.2}, shrink_budget={'quick': 12, 'thorough': 100}, per_shard_min=3),
     Part('pdb-serial-limit', _run_serial_limit, enumerate=_enum_serial_limit),
